@@ -41,7 +41,7 @@ type c18Run struct {
 }
 
 func c18Shutdown(c *ctx) {
-	c.R.Rule = "the real binary with http, https, tcp, tcp+sni and grpc listeners, -proxy.shutdownwait W and -proxy.deregistergraceperiod G; in flight when SIGTERM arrives: HTTP requests answered 0.2W/0.5W/2W/never after the signal, a chunked download in progress, tcp and sni tunnels (idle, exchanging, finishing at 0.3W), gRPC unary calls finishing at 0.3W and a bidi stream that never ends. Monitors: work due within 0.5W completes normally; the process exits with code 0 no later than G+W+max(3s,W); connection attempts after G+0.5s are refused or never served. evaluations = in-flight items + connection probes; non-trivial = run in which open-ended work (never-answered request, endless stream or idle tunnel) was present at the signal; distinct by (W, G, listener mix, signal moment)"
+	c.R.Rule = "the real binary with http, https, tcp, tcp+sni and grpc listeners, -proxy.shutdownwait W and -proxy.deregistergraceperiod G; in flight when SIGTERM arrives: HTTP requests answered 0.2W/0.5W/2W/never after the signal, a chunked download in progress, a websocket tunnel whose Upgrade token is spelled differently from run to run (websocket/WebSocket/Websocket/WEBSOCKET/webSocket), tcp and sni tunnels (idle, exchanging, finishing at 0.3W), gRPC unary calls finishing at 0.3W and a bidi stream that never ends. Monitors: work due within 0.5W completes normally; the process exits with code 0 no later than G+W+max(3s,W); connection attempts after G+0.5s are refused or never served. evaluations = in-flight items + connection probes; non-trivial = run in which open-ended work (never-answered request, endless stream or idle tunnel) was present at the signal; distinct by (W, G, listener mix, signal moment)"
 	runs := []c18Run{{W: 1500 * time.Millisecond, G: 0}, {W: 1500 * time.Millisecond, G: 500 * time.Millisecond, SigAt: 200 * time.Millisecond},
 		{W: 2 * time.Second, G: 0, NoGRPC: true, SigAt: 50 * time.Millisecond}, {W: time.Second, G: 0, NoTCP: true},
 		{W: 4 * time.Second, G: 0, NoTCP: true, NoGRPC: true, OnlyWS: true}}
@@ -78,6 +78,7 @@ type c18Item struct {
 
 func c18One(c *ctx, rn c18Run) {
 	desc := fmt.Sprintf("W=%s G=%s grpc=%v tcp=%v sig+%s", rn.W, rn.G, !rn.NoGRPC, !rn.NoTCP, rn.SigAt)
+	desc += " upgrade-token=" + []string{"websocket", "WebSocket", "Websocket", "WEBSOCKET", "webSocket"}[rn.Index%5]
 	if rn.OnlyWS {
 		desc += " websocket-only"
 	}
@@ -221,7 +222,7 @@ func c18One(c *ctx, rn c18Run) {
 		go func() { it.result <- f(func() { once.Do(started.Done) }) }()
 	}
 	// ---- a websocket tunnel whose last exchange happens 0.5W after the signal ----
-	add("websocket tunnel exchanging until 0.5W after the signal", 0.5, func(ready func()) string {
+	add(fmt.Sprintf("websocket tunnel (Upgrade: %s) exchanging until 0.5W after the signal", []string{"websocket", "WebSocket", "Websocket", "WEBSOCKET", "webSocket"}[rn.Index%5]), 0.5, func(ready func()) string {
 		id := fmt.Sprintf("ws%d", rn.Index)
 		up.SetScript(id, &rawhttp.Script{Upgrade: true})
 		conn, err := net.DialTimeout("tcp", httpA, 5*time.Second)
@@ -231,7 +232,9 @@ func c18One(c *ctx, rn c18Run) {
 		}
 		defer conn.Close()
 		conn.SetDeadline(time.Now().Add(40 * time.Second))
-		fmt.Fprintf(conn, "GET /ws HTTP/1.1\r\nHost: web.test\r\nX-Verif-Id: %s\r\nUpgrade: websocket\r\nConnection: Upgrade\r\nSec-WebSocket-Key: dGhlIHNhbXBsZSBub25jZQ==\r\nSec-WebSocket-Version: 13\r\n\r\n", id)
+		// the upgrade token is case-insensitive (RFC 6455 4.2.1) and the proxy tunnels every spelling: the spelling follows the run
+		tok := []string{"websocket", "WebSocket", "Websocket", "WEBSOCKET", "webSocket"}[rn.Index%5]
+		fmt.Fprintf(conn, "GET /ws HTTP/1.1\r\nHost: web.test\r\nX-Verif-Id: %s\r\nUpgrade: %s\r\nConnection: Upgrade\r\nSec-WebSocket-Key: dGhlIHNhbXBsZSBub25jZQ==\r\nSec-WebSocket-Version: 13\r\n\r\n", id, tok)
 		br := bufio.NewReader(conn)
 		status, err := br.ReadString('\n')
 		if err != nil || !strings.HasPrefix(status, "HTTP/1.1 101") {
